@@ -1,11 +1,11 @@
 (* C08: binary64 instance used by the correspondence check. *)
 From Coq Require Import ZArith List Bool PrimFloat.
-From RV Require Import Common.Num Common.FloatNum C08.Model.
+From RV Require Import Common.Num Common.FloatNum Gen.C08Consts C08.Model.
 Import ListNotations.
 Open Scope float_scope.
 
-Definition c1em12f : float := 0x1.19799812dea11p-40.   (* 1e-12 *)
-Definition c1em200f : float := 0x1.87e92154ef7acp-665. (* 1e-200 *)
+Definition c1em12f : float := c08_rel.     (* regenerated from reb_check_exit: 1e-12 *)
+Definition c1em200f : float := c08_floor. (* regenerated from reb_check_exit: 1e-200 *)
 
 (* kind: 0 = t+=dt/2 twice (leapfrog, whfast, sei); 1 = t+=dt (none, saba, eos, ...); 2 = janus *)
 Definition stepper_of (kind : nat) : float -> float -> float -> float * float * float :=
